@@ -182,6 +182,13 @@ def run(res):
         if m1 != m2:
             res.violation("model: mux output depends on the EL batching", dict(rp, el_batches=elb), key=None)
             continue
+        if m1.startswith("panic"):
+            # an EL RPU that cannot be converted under -m: the model converts every EL RPU up front, the muxer only
+            # when it reaches it (with a longer EL it may stop on the length mismatch first): outside the property's
+            # quantifier, only "does not succeed" is compared
+            if ec == "0":
+                res.violation("mux exits 0, the model predicts the conversion .unwrap() panic", rp)
+            continue
         if kind == "el_longer":
             if ec != "1":
                 res.violation("mux with %d BL frames and %d EL frames exits %s (an error status is required)" % (nbl, nel, ec), rp)
